@@ -309,7 +309,11 @@ def judge(case) -> Verdict:
 def config_st(draw, tier):
     platform = draw(st.sampled_from(["ios", "nxos"]))
     nacl = draw(st.integers(1, 3))
-    acl_names = ["A1", "B-2", "c.3", "110"][:nacl]
+    # names that are prefixes, suffixes and inner parts of one another (a filter must match the whole name)
+    acl_names = draw(st.one_of(
+        st.just(["A1", "B-2", "c.3", "110"][:nacl]),
+        st.lists(st.sampled_from(["A1", "xA1", "A1x", "1", "10", "110", "B-2", "OOB-2", "B-2-in", "c.3", "c", "MGMT", "OOB-MGMT"]),
+                 min_size=nacl, max_size=nacl, unique=True)))
     sections = []
     for name in acl_names:
         acl = draw(G.acl_st(platform=platform, min_items=1, max_items=6, kmax=2, groups=True, members=False, seqs=True,
@@ -327,6 +331,8 @@ def config_st(draw, tier):
             w = (1 << (32 - draw(st.integers(8, 32)))) - 1
             if platform == "nxos" and draw(st.sampled_from(range(5))) == 0:
                 w = draw(G.wildmask_st(3, nc_only=True))  # NX-OS members may be non-contiguous wildcards
+            if platform == "nxos" and draw(st.sampled_from(range(8))) == 3:
+                w = R.ALL1  # 0.0.0.0/0, which NX-OS also spells 'any'
             members.append([draw(G.base_st()) & ~w & R.ALL1, w])
         sections.append({"s": "group", "name": gname, "members": members, "ind": draw(st.integers(1, 4)),
                          "desc": draw(st.sampled_from(["", "", "some group"])), "style": draw(st.integers(0, 3)),
@@ -356,8 +362,9 @@ def config_st(draw, tier):
             sections.insert(draw(st.integers(i + 1, len(sections))), {"s": "acl-cont", "acl": cont, "ind": draw(st.integers(1, 4))})
     names = None
     if draw(st.integers(0, 2)) == 0:
-        near = [n + "0" for n in acl_names] + ["x" + n for n in acl_names] + [n[:-1] for n in acl_names if len(n) > 1]
-        names = draw(st.lists(st.sampled_from(acl_names + near + ["NOPE"]), max_size=3, unique=True))
+        near = [n + "0" for n in acl_names] + ["x" + n for n in acl_names] + [n[:-1] for n in acl_names if len(n) > 1] + \
+               [n[1:] for n in acl_names if len(n) > 1] + [n[-1:] for n in acl_names if len(n) > 1]
+        names = draw(st.lists(st.sampled_from(acl_names + near + ["NOPE", ""]), max_size=3, unique=True))
     prefix = sections[0]["acl"]["prefix"] if sections and sections[0]["s"] in ("acl", "acl-cont") else "= "
     opts = {}
     if draw(st.booleans()):
